@@ -47,12 +47,13 @@ Match(m, r) ==
        /\ \A i \in 1..Len(m.p) : m.p[i] = ANY \/ m.p[i] = r.p[i]
 IsNumeric(c) == Len(c) = 3 /\ \A i \in 1..3 : Ch(c, i) \in Digits
 OutMatch(mr, real, actorRcpt) ==
-  IF Len(mr.out) = 1 /\ mr.out[1].cmd = "*LISTING"
-  THEN Len(real) >= 1 /\ \A i \in 1..Len(real) : IsNumeric(real[i].cmd) /\ real[i].from = SrvPfx /\ real[i].to = mr.out[1].to
-  ELSE /\ Len(real) = Len(mr.out) + Cardinality(mr.bag)
-       /\ \A i \in 1..Len(mr.out) : Match(mr.out[i], real[i])
-       /\ \A b \in mr.bag : \E i \in (Len(mr.out) + 1)..Len(real) : Match(b, real[i])
-       /\ \A i \in (Len(mr.out) + 1)..Len(real) : \E b \in mr.bag : Match(b, real[i])
+  (* real = out, then the bag in some order, then tail *)
+  LET n1 == Len(mr.out)  nb == Cardinality(mr.bag)  n3 == Len(mr.tail) IN
+  /\ Len(real) = n1 + nb + n3
+  /\ \A i \in 1..n1 : Match(mr.out[i], real[i])
+  /\ \A b \in mr.bag : \E i \in (n1 + 1)..(n1 + nb) : Match(b, real[i])
+  /\ \A i \in (n1 + 1)..(n1 + nb) : \E b \in mr.bag : Match(b, real[i])
+  /\ \A i \in 1..n3 : Match(mr.tail[i], real[n1 + nb + i])
 
 (* which part of a state differs (diagnostics) *)
 DiffFields(a, b) == {f \in {"ss", "nk", "ch", "holds", "srv", "lp", "cfg"} : a[f] # b[f]}
@@ -96,7 +97,7 @@ Eval(i) ==
     /\ IF rec.panic THEN PrintT(<<"PANIC", rec.h, rec.i, rec.e.conf>>) ELSE TRUE
     /\ IF doconf /\ mr.panic THEN PrintT(<<"CONF", "model-panics", rec.h, rec.i>>) ELSE TRUE
     /\ IF doconf /\ ~mr.panic /\ ~confSt THEN PrintT(<<"CONF", "state", rec.h, rec.i, DiffFields(mr.st, post)>>) ELSE TRUE
-    /\ IF doconf /\ ~mr.panic /\ ~confOut THEN PrintT(<<"CONF", "out", rec.h, rec.i, mr.out, mr.bag>>) ELSE TRUE
+    /\ IF doconf /\ ~mr.panic /\ ~confOut THEN PrintT(<<"CONF", "out", rec.h, rec.i, mr.out, mr.bag, mr.tail>>) ELSE TRUE
     /\ IF doconf /\ ~mr.panic /\ confSt /\ confOut THEN TLCSet(1, TLCGet(1) + 1) ELSE TRUE
 
 Init == l = 1 /\ TLCSet(1, 0)
